@@ -6,6 +6,7 @@ package main
 // Parsed by a small Pratt parser into the AST below; evaluated to SMT terms by eval.go.
 
 import (
+	"strconv"
 	"fmt"
 	"strings"
 	"unicode"
@@ -88,7 +89,11 @@ func lexExpr(s string) ([]tok, error) {
 			if j >= len(s) {
 				return nil, fmt.Errorf("unterminated string at %d", i)
 			}
-			out = append(out, tok{"str", s[i+1 : j], i})
+			lit := s[i+1 : j]
+			if u, err := strconv.Unquote(s[i : j+1]); err == nil {
+				lit = u
+			}
+			out = append(out, tok{"str", lit, i})
 			i = j + 1
 		default:
 			ops := []string{"<==>", "==>", "::", "==", "!=", "<=", ">=", "&&", "||", "<", ">", "+", "-", "*", "/", "%", "!", "(", ")", "[", "]", ".", ",", ":", "{", "}", "?", "&"}
